@@ -68,6 +68,23 @@ def main() -> int:
     srcs = enum_exps.c01_family(False)[:: (9 if not thorough else 2)]
     for _ in range(1200 if not thorough else 10000):
         srcs.append(gen_exps.random_program(rng, max_depth=rng.choice([1, 2, 3])))
+    # the same kind of programs in unusual layouts (conditions and argument lists spread over several lines, several statements per line,
+    # comments between tokens, tabs): expected positions come from the parse tree of the text as laid out
+    from vf import c16
+    n_relaid = 0
+    for base in srcs[:: (20 if not thorough else 8)]:
+        try:
+            toks = c16.tokenize(base)
+        except Exception:
+            continue
+        seps = ["space"] * (len(toks) - 1)
+        for k in range(len(seps)):
+            r = rng.random()
+            if r < 0.25:
+                seps[k] = rng.choice(["newline", "crlf", "comment-and-newline", "tab", "two-spaces", "block-comment"])
+        srcs.append(c16.render(toks, seps, {}))
+        n_relaid += 1
+    rep.extra["relaid_out_programs"] = n_relaid
     cases = [c for c in pmap(drive.source_case, srcs) if c.get("status") == "ok"]
     trees = [t for t in gen_macros.family(rng, thorough)]
     tc = pmap(gen_macros.compile_tree, trees, chunk=4)
